@@ -276,8 +276,12 @@ def check_class_header_arms(fx, rep, rule, impl):
                   expected="class in progress := fresh struct from this Class record (names wired, file name reset, empty member maps, zero counters); nothing leaks from the previous block")
         # per-class dedupe reset: either clear(set) here or the set is a field of the replaced struct
         if uniq is not None:
-            if uniq[2] == ():   # separate variable
-                ok_reset = any(c[1] == uniq for c in clr)
+            if uniq[2] == ():   # separate variable: cleared, or replaced by a new empty set
+                def empty_set(v):
+                    return v[0] == "default" or (v[0] == "call" and not v[2] and v[1].split("::")[-1] in ("new", "default") and "HashSet" in v[1])
+                # (the last thing this arm does to the set decides what the next class block starts with)
+                touch = [e_ for e_ in effs if (e_[0] in ("clear", "assign", "set_insert") and e_[1] == uniq)]
+                ok_reset = bool(touch) and (touch[-1][0] == "clear" or (touch[-1][0] == "assign" and empty_set(touch[-1][2])))
             else:               # field of the class struct: replaced wholesale
                 ok_reset = ok_new and (uniq[2][0] not in carried)
             rep.check(rule, "%s/class-arm/%s/dedupe-reset" % (rule, impl), ok_reset, loc=F.short_file(rl.body["sp"]),
